@@ -51,6 +51,7 @@ fn main() {
     "C04" => dispatch!(props::c04::C04),
     "C07" => dispatch!(props::c07::C07),
     "C08" => dispatch!(props::c08::C08),
+    "C09" => dispatch!(props::c09::C09),
     "C14" => dispatch!(props::c14::C14),
     "C15" => dispatch!(props::c15::C15),
     other => {
